@@ -403,7 +403,9 @@ func loadView(ctx context.Context, scope *ReferenceScope, tableExpr parser.Query
 		}
 
 		if view.FileInfo != nil {
-			view.FileInfo.ViewType = ViewTypeInlineTable
+			fileInfo := *view.FileInfo
+			fileInfo.ViewType = ViewTypeInlineTable
+			view.FileInfo = &fileInfo
 		}
 	}
 
